@@ -311,7 +311,7 @@ func Document(t *rapid.T, o DocOpts) *DocCase {
 
 	nmem := 0
 	if c.IsList() {
-		nmem = rapid.IntRange(0, 5).Draw(t, "nmembers")
+		nmem = rapid.IntRange(0, Upto(t, "nmembers", 5)).Draw(t, "nmembers")
 	}
 
 	switch kind {
@@ -392,7 +392,7 @@ func Document(t *rapid.T, o DocOpts) *DocCase {
 
 	// Included.
 	if !o.NoIncluded && rapid.IntRange(0, 2).Draw(t, "hasincluded") > 0 {
-		n := rapid.IntRange(1, 5).Draw(t, "nincluded")
+		n := rapid.IntRange(1, Upto(t, "nincluded", 5)).Draw(t, "nincluded")
 		for i := 0; i < n; i++ {
 			m, ok := newRes(pick("inctype"), fmt.Sprintf("inc%d", i), false)
 			if !ok {
